@@ -1026,3 +1026,60 @@ def eliminate_local_memo(fn: ast.FunctionDef):
         memos.append((M, K, copy.deepcopy(E)))
         ast.fix_missing_locations(fn)
     return (fn, memos) if memos else None
+
+
+# ---------------------------------------------------------------------------
+# A list built by statements at one level -> the display it denotes
+def fold_list_building(fn: ast.FunctionDef) -> ast.FunctionDef:
+    """`x = [..]; x.extend(E1); x.append(e2); x += E3` at the top level of the body, with `x`
+    named nowhere else before its last in-place update, becomes `x = [.., *E1, e2, *E3]` (on a
+    copy).  Any other use of the name leaves the function as it is: a reader of the result
+    (guards.GuardWalk expansion) would otherwise see only the initial `[]`."""
+    body = fn.body
+    cands = {}
+    for i, s in enumerate(body):
+        t = None
+        if isinstance(s, ast.Assign) and len(s.targets) == 1 and isinstance(s.targets[0], ast.Name):
+            t, v = s.targets[0].id, s.value
+        elif isinstance(s, ast.AnnAssign) and isinstance(s.target, ast.Name) and s.value is not None:
+            t, v = s.target.id, s.value
+        if t is not None and isinstance(v, ast.List) and t not in cands:
+            cands[t] = i
+    if not cands:
+        return fn
+    out = copy.deepcopy(fn)
+    changed = False
+    for x, i0 in cands.items():
+        parts = list(out.body[i0].value.elts)
+        drop = []
+        for j in range(i0 + 1, len(out.body)):
+            s = out.body[j]
+            piece = None
+            if isinstance(s, ast.Expr) and isinstance(s.value, ast.Call) and \
+                    isinstance(s.value.func, ast.Attribute) and \
+                    isinstance(s.value.func.value, ast.Name) and s.value.func.value.id == x and \
+                    s.value.func.attr in ('extend', 'append') and len(s.value.args) == 1 and \
+                    not s.value.keywords:
+                a = s.value.args[0]
+                piece = ast.Starred(a, ast.Load()) if s.value.func.attr == 'extend' else a
+            elif isinstance(s, ast.AugAssign) and isinstance(s.op, ast.Add) and \
+                    isinstance(s.target, ast.Name) and s.target.id == x:
+                a = s.value
+                piece = ast.Starred(a, ast.Load())
+            if piece is None:
+                break
+            if x in _names(a):
+                break
+            parts.append(piece)
+            drop.append(j)
+        if not drop:
+            continue
+        # no other statement between the initialisation and the last update may name x
+        last = drop[-1]
+        if any(x in _names(out.body[j]) for j in range(i0 + 1, last) if j not in drop):
+            continue
+        out.body[i0].value = ast.List(parts, ast.Load())
+        out.body = [s for j, s in enumerate(out.body) if j not in drop]
+        changed = True
+        break           # indices moved; one folded list per function is what the repo needs
+    return ast.fix_missing_locations(out) if changed else fn
